@@ -1926,6 +1926,26 @@ func (e *Exec) recomputeSignBytes(n *Node, id int, bt *BuiltTx) {
 			return
 		}
 	}
+	// a node validates the decoded messages (ValidateBasic) BEFORE its ante chain verifies the signatures over them:
+	// validation must not change what the messages sign to
+	for _, m := range stx.GetMsgs() {
+		passesValidateBasic(m)
+	}
+	for i, su := range bt.Sigs {
+		if i >= len(bt.SignBytes) || su.Mode == ModeAux {
+			continue
+		}
+		acc := e.Env.Accs[su.Acc]
+		sd := authsigning.SignerData{ChainID: su.ChainID, AccountNumber: su.AccNum, Sequence: su.Seq, PubKey: acc.Priv.PubKey(), Address: acc.Addr.String()}
+		again, err := cfg.SignModeHandler().GetSignBytes(su.Mode.sdk(), sd, stx)
+		if err != nil {
+			continue
+		}
+		if !bytes.Equal(again, bt.SignBytes[i]) {
+			e.viol("C14", "signbytes.changed_by_validation", fmt.Sprintf("tx%d", id), "sign bytes (%s mode) of tx %d differ before and after the messages' own ValidateBasic on replica %d: the node verifies the signature over other bytes than the client signed", su.Mode, id, n.ID)
+			return
+		}
+	}
 }
 
 func passesValidateBasic(m sdk.Msg) (ok bool) {
